@@ -1,4 +1,5 @@
 import CattrsModel.Conv.Unstructure
+import CattrsModel.Conv.Union
 /-!
 # Structuring, `detailed_validation=False`
 
@@ -74,6 +75,12 @@ def stF (w : World) (cfg : Cfg) : Ty → Obj → Option Obj
         | some res =>
           if cfg.forbid && !(extraKeys (fieldNames (w.fields c)) kvs).isEmpty then Option.none
           else some (.dict res)
+  | .union cs hn, o =>
+      -- `structure_attrs_union`: `self.structure(obj, dis_fn(obj))`; a refused creation or resolution raises
+      match unionPick w cs hn o with
+      | .ok m => if h : m ∈ cs then stF w cfg (.cls m) o else Option.none
+      | .none => some .none
+      | _ => Option.none
   | _, _ => Option.none
 termination_by t x => (sizeOf x, sizeOf t)
 decreasing_by
@@ -81,6 +88,7 @@ decreasing_by
     | decreasing_tactic
     | (apply Prod.Lex.left; exact iterItems_lt h)
     | (apply Prod.Lex.left; have := sizeOf_keysOf_lt kvs; simp; omega)
+    | (apply Prod.Lex.right; have := List.sizeOf_lt_of_mem h; simp at this ⊢; omega)
 def stFL (w : World) (cfg : Cfg) (t : Ty) : List Obj → Option (List Obj)
   | [] => some []
   | x :: xs => match stF w cfg t x with
